@@ -19,7 +19,58 @@ var recRace = kit.NewRecorder("C04", "race",
 		"oracle: every request either returned an error, or returned nil and the requester received exactly one notification naming that identity - never nil-and-silence, never two notifications; "+
 		"non-trivial = a requester was parked between its existence check and its insert at the same moment the target was parked between removal and drain; distinct by trace")
 
-func propRace(t *rapid.T) {
+// schedTM wraps the node's target manager: every relation-table operation becomes a pair of
+// yield points (before / after) of the controlled scheduler. The code base places its own
+// existence checks and table removals around these calls, so the interleaving of "check",
+// "insert", "remove", "drain" is under the generator's control wherever the code puts them -
+// no source hook needed.
+type schedTM struct {
+	gen.TargetManager
+	mu    sync.Mutex
+	sched *kit.Sched
+	owner uint64 // id used for operations keyed by a target that is not a pid
+}
+
+func (m *schedTM) point(name string, id uint64) {
+	m.mu.Lock()
+	s := m.sched
+	m.mu.Unlock()
+	if s != nil {
+		s.Point(name, id)
+	}
+}
+
+func (m *schedTM) tid(target any) uint64 {
+	if p, ok := target.(gen.PID); ok {
+		return p.ID
+	}
+	return m.owner
+}
+
+func (m *schedTM) AddLink(c gen.PID, target any) error {
+	m.point("tm.add.pre", c.ID)
+	err := m.TargetManager.AddLink(c, target)
+	m.point("tm.add.post", c.ID)
+	return err
+}
+
+func (m *schedTM) AddMonitor(c gen.PID, target any) error {
+	m.point("tm.add.pre", c.ID)
+	err := m.TargetManager.AddMonitor(c, target)
+	m.point("tm.add.post", c.ID)
+	return err
+}
+
+func (m *schedTM) CleanupTarget(target any) ([]gen.PID, []gen.PID) {
+	m.point("tm.drain.pre", m.tid(target))
+	l, mo := m.TargetManager.CleanupTarget(target)
+	m.point("tm.drain.post", m.tid(target))
+	return l, mo
+}
+
+func propRace(t *rapid.T) { propRaceWith(t, false) }
+
+func propRaceWith(t *rapid.T, viaTM bool) {
 	ident := rapid.IntRange(0, 3).Draw(t, "identity") // 0 pid 1 name 2 alias 3 event
 	vanish := rapid.IntRange(0, 2).Draw(t, "vanish")  // 0 kill 1 stop message 2 unregister that identity
 	if ident == 0 && vanish == 2 {
@@ -32,7 +83,13 @@ func propRace(t *rapid.T) {
 	}
 	choices := rapid.SliceOfN(rapid.IntRange(0, 5), 6, 40).Draw(t, "schedule")
 
-	node, err := kit.StartLocalNode()
+	var wtm *schedTM
+	node, err := kit.StartLocalNode(func(o *gen.NodeOptions) {
+		if viaTM {
+			wtm = &schedTM{TargetManager: gen.CreateDefaultTargetManager()}
+			o.TargetManager = wtm
+		}
+	})
 	if err != nil {
 		t.Fatalf("start node: %v", err)
 	}
@@ -103,9 +160,18 @@ func propRace(t *rapid.T) {
 		if !ids[pid] {
 			return false
 		}
+		if viaTM {
+			return strings.HasPrefix(name, "tm.")
+		}
 		return name == "link.add" || name == "monitor.add" || strings.HasPrefix(name, "unreg.")
 	})
 	defer s.Close()
+	if viaTM {
+		wtm.mu.Lock()
+		wtm.sched, wtm.owner = s, target.ID
+		wtm.mu.Unlock()
+		defer func() { wtm.mu.Lock(); wtm.sched = nil; wtm.mu.Unlock() }()
+	}
 
 	results := make([]error, nreq)
 	var wg sync.WaitGroup
@@ -211,14 +277,26 @@ func propRace(t *rapid.T) {
 	nontrivial := false
 	for pair := range s.CoPark {
 		ab := strings.Split(pair, "|")
-		add := func(x string) bool { return x == "link.add" || x == "monitor.add" }
-		un := func(x string) bool { return strings.HasPrefix(x, "unreg.") }
+		add := func(x string) bool { return x == "link.add" || x == "monitor.add" || strings.HasPrefix(x, "tm.add") }
+		un := func(x string) bool { return strings.HasPrefix(x, "unreg.") || strings.HasPrefix(x, "tm.drain") }
 		if (add(ab[0]) && un(ab[1])) || (un(ab[0]) && add(ab[1])) {
 			nontrivial = true
 		}
 	}
-	recRace.Case(nontrivial, fmt.Sprintf("ident=%d vanish=%d mon=%v trace=%s", ident, vanish, monitor, strings.Join(s.Trace, ",")),
+	rec := recRace
+	if viaTM {
+		rec = recRaceTM
+	}
+	rec.Case(nontrivial, fmt.Sprintf("ident=%d vanish=%d mon=%v trace=%s", ident, vanish, monitor, strings.Join(s.Trace, ",")),
 		fmt.Sprintf("ident=%d", ident), fmt.Sprintf("vanish=%d", vanish))
+}
+
+var recRaceTM = kit.NewRecorder("C04", "race-tm",
+	"the same race (1-2 link/monitor requests on pid, name, alias or event against Kill, stop message or unregistration of that identity), but the yield points are the calls into an injected wrapping gen.TargetManager (before and after every AddLink/AddMonitor and every CleanupTarget): the interleaving of relation inserts with drains is generated wherever the code base places its existence checks and table removals around them; "+
+		"oracle: as for the race part; non-trivial = an insert and a drain were parked at the same moment; distinct by trace")
+
+func TestRaceTM(t *testing.T) {
+	rapid.Check(t, func(t *rapid.T) { propRaceWith(t, true) })
 }
 
 func TestRace(t *testing.T) {
